@@ -80,14 +80,22 @@ fn interesting<T: Fx>(dp: u32, rng: &mut StdRng, quick: bool) -> Vec<T> {
     v
 }
 
+fn near_bounds<T: Fx>(x: &T, dp: u32) -> bool {
+    let u2 = Big::pow10(T::SD - dp).muli(2);
+    let b = x.big();
+    b.sub(&T::min_big()).cmp_abs_le(&u2) || T::max_big().sub(&b).cmp_abs_le(&u2)
+}
+
 fn round_for<T: Fx>(r: &mut Rec, rng: &mut StdRng, scale: usize) {
     let quick = scale == 1;
     for dp in 0..=T::SD {
         let vals = interesting::<T>(dp, rng, quick);
         for (i, x) in vals.iter().enumerate() {
             for mi in 0..7 {
-                // quick: every value with 3 of the 7 modes (rotating), all modes for the first values
-                if quick && i >= 12 && (i + mi + dp as usize) % 7 >= 3 {
+                // quick: every value with 3 of the 7 modes (rotating); all modes for the first values and
+                // for every value within two rounding steps of MIN / MAX (where the prescribed neighbour
+                // may or may not be representable — the overflow boundary of every mode)
+                if quick && i >= 12 && !near_bounds::<T>(x, dp) && (i + mi + dp as usize) % 7 >= 3 {
                     continue;
                 }
                 round(r, *x, dp, mi);
